@@ -115,7 +115,7 @@ def first_axis_point(o, where="inside"):
 # valid operations
 # ---------------------------------------------------------------------------------------------
 
-VALID = ["fill_inside", "fill_above", "fill_below", "fill_edge", "fill_weighted", "fill_n", "fill_n_weighted", "iadd_copy", "isub_empty", "isub_half",
+VALID = ["fill_inside", "fill_above", "fill_below", "fill_edge", "fill_weighted", "fill_heavy", "fill_n", "fill_n_weighted", "iadd_copy", "isub_empty", "isub_half",
          "imul2", "idiv2", "merge2", "normalize", "dtype_float"]
 VALID_COL = ["col_add", "col_member_fill", "col_create"]
 
@@ -151,6 +151,8 @@ def apply_valid(o, name, ref=None):
         o.fill(p(o, "edge"))
     elif name == "fill_weighted":
         o.fill(p(o), 0.5)
+    elif name == "fill_heavy":
+        o.fill(p(o), 200)  # contents stay small, the squared error (40000) leaves the int16 range
     elif name == "fill_n":
         o.fill_n(np.array([p(o), p(o, "above")]))
     elif name == "fill_n_weighted":
@@ -284,6 +286,17 @@ def faults(o):
         ("index_too_many", lambda: o[(0,) * (o.ndim + 1)], True),
         ("select_bad_axis", lambda: o.select(o.ndim + 2, 0), True),
     ]
+    big = max(float(np.max(np.abs(o.frequencies), initial=0)), float(np.max(np.abs(o.errors2), initial=0)))
+    if big > 32767 and np.dtype(o.dtype).kind in "iu":
+        fs.append(("set_dtype_int16_out_of_range", lambda: o.set_dtype(np.int16), True))
+    if big > 65504:
+        fs.append(("set_dtype_float16_out_of_range", lambda: o.set_dtype(np.float16), True))
+    inf_point = first_axis_point(o)
+    if o.ndim == 1:
+        fs.append(("fill_n_with_inf", lambda: o.fill_n(np.array([first_axis_point(o, "below"), np.inf])), False))
+        fs.append(("fill_inf", lambda: o.fill(np.inf), False))
+    else:
+        fs.append(("fill_n_with_inf", lambda: o.fill_n(np.array([first_axis_point(o, "below"), [np.inf] * o.ndim])), False))
     if o.ndim == 1:
         fs += [
             ("fill_non_scalar", lambda: o.fill([0.5, 1.5]), True),
@@ -501,7 +514,7 @@ def run_unit(unit, ctx):
     o0 = make_base(base)
     vops = valid_ops(o0)
     first = unit["first"]
-    second = [v for v in vops if v in ("fill_above", "fill_weighted", "fill_n_weighted", "iadd_copy", "idiv2", "merge2", "col_add", "col_member_fill")]
+    second = [v for v in vops if v in ("fill_above", "fill_weighted", "fill_heavy", "fill_n_weighted", "iadd_copy", "idiv2", "merge2", "col_add", "col_member_fill")]
     prefixes = [[]] if first is None else [[first]] + [[first, v] for v in second]
     follows = [v for v in vops if v in ("fill_inside", "fill_above", "fill_n_weighted", "iadd_copy", "imul2", "merge2", "normalize", "col_add", "col_member_fill", "col_create")]
     k = 0
